@@ -94,6 +94,38 @@ pub fn affine_case(cx: &mut Ctx, n: u64, case: &Value) {
             if deg >= 1e-6 { chk("rotate_small_angle", format!("AffineTransform::<f32>::rotate({deg}): sine entries"), ((r32.d() as f64) - w).abs() <= 1e-4 * w, format!("d = {:e}", r32.d())); }
         }
     }
+    // values that the integer machine cannot produce: general angles, decimal factors, decimal origins (reference: the documented
+    // matrices evaluated with the platform's sin / cos / tan); the builder form composes with the accumulated transform
+    if n % 40 == 0 {
+        let org = geo::Coord { x: 12.345, y: -0.7 };
+        for deg in [30.0f64, 17.3, 123.456, -200.5, 359.9, 721.25] {
+            let (sn, cs) = (deg.to_radians().sin(), deg.to_radians().cos());
+            let want = [cs, -sn, org.x - org.x * cs + org.y * sn, sn, cs, org.y - org.x * sn - org.y * cs];
+            let r = AffineTransform::<f64>::rotate(deg, org);
+            chk("general_values", format!("rotate({deg}, {org:?})"), near(&entries(&r), &want, 1e-12), format!("{:?}", entries(&r)));
+            let rb = t0.rotated(deg, org);
+            chk("general_values", format!("pre.rotated({deg}, {org:?}) = pre.compose(rotate)"), near(&entries(&rb), &entries(&t0.compose(&r)), 1e-9), format!("{:?}", entries(&rb)));
+            let p = geo::Coord { x: 3.3, y: 9.9 };
+            let q = r.apply(p);
+            let wq = geo::Coord { x: org.x + (p.x - org.x) * cs - (p.y - org.y) * sn, y: org.y + (p.x - org.x) * sn + (p.y - org.y) * cs };
+            chk("general_values", format!("rotate({deg}).apply"), (q.x - wq.x).abs() <= 1e-9 && (q.y - wq.y).abs() <= 1e-9, format!("{q:?} want {wq:?}"));
+        }
+        for (fx, fy) in [(0.1f64, 3.0f64), (1.0 / 3.0, -2.5), (1e-3, 1e3)] {
+            let want = [fx, 0.0, org.x - org.x * fx, 0.0, fy, org.y - org.y * fy];
+            let sc = AffineTransform::<f64>::scale(fx, fy, org);
+            chk("general_values", format!("scale({fx}, {fy}, {org:?})"), near(&entries(&sc), &want, 1e-12), format!("{:?}", entries(&sc)));
+            chk("general_values", format!("pre.scaled({fx}, {fy})"), near(&entries(&t0.scaled(fx, fy, org)), &entries(&t0.compose(&sc)), 1e-9), String::new());
+        }
+        for (xs, ys) in [(30.0f64, 0.0f64), (12.5, -40.0), (-63.2, 7.7)] {
+            let (tx, ty) = (xs.to_radians().tan(), ys.to_radians().tan());
+            let want = [1.0, tx, -org.y * tx, ty, 1.0, -org.x * ty];
+            let sk = AffineTransform::<f64>::skew(xs, ys, org);
+            chk("general_values", format!("skew({xs}, {ys}, {org:?})"), near(&entries(&sk), &want, 1e-12), format!("{:?}", entries(&sk)));
+            chk("general_values", format!("pre.skewed({xs}, {ys})"), near(&entries(&t0.skewed(xs, ys, org)), &entries(&t0.compose(&sk)), 1e-9), String::new());
+        }
+        let tr = AffineTransform::<f64>::translate(0.1, -1e-7);
+        chk("general_values", "translate(0.1, -1e-7)".into(), entries(&tr) == [1.0, 0.0, 0.1, 0.0, 1.0, -1e-7] && near(&entries(&t0.translated(0.1, -1e-7)), &entries(&t0.compose(&tr)), 1e-12), format!("{:?}", entries(&tr)));
+    }
     // identity(): the neutral element of compose on both sides, equal to Default, is_identity, its own inverse
     {
         let id = AffineTransform::<f64>::identity();
